@@ -479,6 +479,8 @@ OPTIONAL_TRIGGERS = {
 UNDEFER_WHEN = ("and", ("col", "OLD", "detached"), ("not", ("col", "NEW", "detached")))
 UNDEFER_BODY = (r"UPDATE step SET deferred = (?:FALSE|0) WHERE deferred AND "
                 r"node IN \(SELECT sink FROM dependency WHERE source = NEW\.i\);?")
+UNDEFER_BODY_REFINED = (r"UPDATE step SET deferred = (?:FALSE|0) WHERE deferred AND "
+                        r"node IN \(SELECT sink FROM dependency WHERE source = NEW\.i\) AND NOT EXISTS \((.*)\);?")
 # progress counters only (step_need_count); they never touch the columns modelled here
 COUNTER_TRIGGERS = {"step_need_count_ins", "step_need_count_del", "step_need_count_upd",
                     "node_detached_step_need_count"}
@@ -614,12 +616,36 @@ UNUSABLE_DYNAMIC_INPUT_SQL = (
     "SELECT EXISTS ( SELECT 1 FROM dependency JOIN dynamic_dep ON dynamic_dep.i = dependency.i "
     "JOIN node ON node.i = dependency.source JOIN file ON file.node = dependency.source "
     "WHERE dependency.sink = ? AND ( node.detached OR file.state NOT IN ({confirmed}, {built}) ) )")
+# the shared subquery (step.unusable_dynamic_input_sql(node_expr)) of the refined repair
+UNUSABLE_DYNAMIC_INPUT_SUBQUERY = (
+    "SELECT 1 FROM dependency AS dyn_dep JOIN dynamic_dep ON dynamic_dep.i = dyn_dep.i "
+    "JOIN node AS dyn_node ON dyn_node.i = dyn_dep.source JOIN file AS dyn_file ON dyn_file.node = dyn_dep.source "
+    "WHERE dyn_dep.sink = {sink} AND (dyn_node.detached OR dyn_file.state NOT IN ({confirmed}, {built}))")
+
+
+def unusable_subquery(sink: str) -> str | None:
+    """The normalised text of step.unusable_dynamic_input_sql(sink) when the repository has that function and it
+    is the query the model re-expresses (Sched.unusable_dyn); None when the function does not exist."""
+    import importlib
+    enums = importlib.import_module("stepup.core.enums")
+    step = importlib.import_module("stepup.core.step")
+    fn = getattr(step, "unusable_dynamic_input_sql", None)
+    if fn is None:
+        return None
+    probe = "@SINK@"
+    got = norm_sql(fn(probe))
+    exp = UNUSABLE_DYNAMIC_INPUT_SUBQUERY.format(sink=probe, confirmed=enums.FileState.CONFIRMED.value,
+                                                 built=enums.FileState.BUILT.value)
+    if got != exp:
+        raise TranslatorError(f"step.unusable_dynamic_input_sql: query not recognised: {got!r}")
+    return got.replace(probe, sink)
 
 
 def check_unusable_dynamic_input():
     """Step.has_unusable_dynamic_input (the repair of D39), fail closed: one query, true iff a dynamic input
     edge of the step comes from a node that is detached or from a file that is not CONFIRMED / BUILT.
-    Model: Sched.unusable_dyn (states = dyn_available_states)."""
+    Two shapes: the inline query (repo 84081f2) or `SELECT EXISTS (unusable_dynamic_input_sql('?'))` (the subquery
+    shared with the trigger step_node_undefer_reattached).  Model: Sched.unusable_dyn (states = dyn_available_states)."""
     import importlib
     enums = importlib.import_module("stepup.core.enums")
     fn = find_function(parse_module(f"{CORE}/step.py"), "has_unusable_dynamic_input", "Step")
@@ -630,6 +656,12 @@ def check_unusable_dynamic_input():
     value = body[0].value
     if not isinstance(value, ast.JoinedStr):
         raise TranslatorError("Step.has_unusable_dynamic_input: the query is not an f-string")
+    if ast.unparse(value) in ("f\"SELECT EXISTS ({unusable_dynamic_input_sql('?')})\"",
+                              "f'SELECT EXISTS ({unusable_dynamic_input_sql(\'?\')})'",
+                              'f"SELECT EXISTS ({unusable_dynamic_input_sql(\'?\')})"'):
+        if unusable_subquery("?") is None:
+            raise TranslatorError("Step.has_unusable_dynamic_input: unusable_dynamic_input_sql is missing")
+        return
     parts = []
     for v in value.values:
         if isinstance(v, ast.Constant):
@@ -810,13 +842,23 @@ def generate():
         raise TranslatorError("step_hash_del does not clear _has_hash")
     facts["triggers"] = flags
     undefer = "step_node_undefer_reattached" in trg
+    undefer_strict = False
     if undefer:
         u = trg["step_node_undefer_reattached"]
         if u["when"] is None or sqlexpr.parse(u["when"]) != UNDEFER_WHEN:
             raise TranslatorError("trigger step_node_undefer_reattached: WHEN is not OLD.detached AND NOT NEW.detached")
-        if not re.fullmatch(UNDEFER_BODY, u["body"].strip()):
+        body = u["body"].strip()
+        m = re.fullmatch(UNDEFER_BODY_REFINED, body)
+        if m:
+            # refined: only a step that has no unusable dynamic input left is woken
+            sub = unusable_subquery("step.node")
+            if sub is None or norm_sql(m.group(1)) != sub:
+                raise TranslatorError(f"trigger step_node_undefer_reattached: guard not recognised: {m.group(1)!r}")
+            undefer_strict = True
+        elif not re.fullmatch(UNDEFER_BODY, body):
             raise TranslatorError(f"trigger step_node_undefer_reattached: body not recognised: {u['body']!r}")
     facts["undefer_on_reattach"] = undefer
+    facts["undefer_strict"] = undefer_strict
 
     cmp_defer = defer_comparator()
 
@@ -891,6 +933,8 @@ def generate():
     o.append("(* step_node_undefer_reattached (optional): a node whose detached flag goes 1 -> 0 clears `deferred` "
              "of its consumers *)")
     o.append(f"Definition trg_undefer_on_reattach : bool := {'true' if undefer else 'false'}.")
+    o.append("(* ... refined (D39-refine): only of the consumers that have no unusable dynamic input left *)")
+    o.append(f"Definition trg_undefer_strict : bool := {'true' if undefer_strict else 'false'}.")
     o.append(f"Definition trg_reset_holding_when : sexpr ncol := {sqlexpr.to_coq(w_hold, _colmap(NCOL))}.")
     o.append(f"Definition trg_clear_deferred_when : sexpr ncol := {sqlexpr.to_coq(w_def, _colmap(NCOL))}.")
     o.append(f"Definition trg_reset_defer_count_when : sexpr ncol := {sqlexpr.to_coq(w_cnt, _colmap(NCOL))}.")
